@@ -444,7 +444,37 @@ class BookFanout(Harness):
         got = {'A': native.unhx(r[1][0]), 'B': native.unhx(r[1][1])}
         return got != exp, 'cells after the edit %r expected %r' % (got, exp)
 
+class FromOtherSheet(Harness):
+    name = 'sheet.from_other_sheet'; property_id = 'C07'
+    entry = [WS + 'insert_new_row_from_other_sheet', WS + 'insert_new_column_by_index_from_other_sheet', WS + 'remove_row_from_other_sheet', WS + 'remove_column_by_index_from_other_sheet']
+    doc = 'Worksheet::*_from_other_sheet(name, ..) tells a sheet that rows/columns were inserted/removed on ANOTHER sheet: its own cell must stay where it is'
+    bounds = {'cell': 'anywhere in the grid', 'edit': 'insert/remove rows/columns on another sheet, position and width symbolic'}
+    def run(self, it, ctx, res):
+        op = 'insert' if ctx.branch(ctx.sym_bool('op_insert')) else 'remove'
+        axis = 'row' if ctx.branch(ctx.sym_bool('axis_row')) else 'col'
+        lim = MAXR if axis == 'row' else MAXC
+        c = ctx.sym_int('c', 1, MAXC); r = ctx.sym_int('r', 1, MAXR); p = ctx.sym_int('p', 1, lim); n = ctx.sym_int('n', 1, lim)
+        if op == 'remove': ctx.assume(p + n - 1 <= lim)
+        info = {'op': op, 'axis': axis}
+        try:
+            ws = new_sheet(it)
+            it.call(WS + 'set_name::<&str>', [Ref(ws), sref('B')])
+            put_cell(it, ws, c, r, True)
+            fn = {('insert', 'row'): 'insert_new_row_from_other_sheet', ('insert', 'col'): 'insert_new_column_by_index_from_other_sheet', ('remove', 'row'): 'remove_row_from_other_sheet', ('remove', 'col'): 'remove_column_by_index_from_other_sheet'}[(op, axis)]
+            it.call(WS + fn, [Ref(ws), sref('A'), iref(p), iref(n)])
+            got = cell_tag(it, ws, c, r); cnt = len(it.call(WS + 'get_cell_collection', [Ref(ws)]))
+        except Panic as e:
+            self.fail(ctx, res, 'no-panic', str(e), info=info); return
+        self.oblige(ctx, res, 'own-cells-untouched', got == 1 and cnt == 1, info=dict(info, got=got, count=cnt))
+    def case_of(self, v):
+        m = v['model']; c = {'op': 'insert' if m['op_insert'] else 'remove', 'axis': 'row' if m['axis_row'] else 'col', 'cell': [m['c'], m['r']], 'p': m['p'], 'n': m['n']}; c['show'] = dict(c); return c
+    def confirm(self, case, profile):
+        r = native.run_cases([['from_other_sheet', case['op'], case['axis'], case['p'], case['n']] + case['cell']], profile)[0]
+        exp = coord_str(case['cell'][0], case['cell'][1], False, False)
+        got = native.unhx(r[1][0]) if r[0] == 'ok' else None
+        return (r[0] != 'ok' or got != exp), 'cells of sheet B after %s %ss at %d (+%d) on sheet A: %r expected %r' % (case['op'], case['axis'], case['p'], case['n'], got if r[0] == 'ok' else r, exp)
+
 def harnesses(tier):
-    return [Scalar(), RangeShift(tier), SheetEdit(tier), SheetMove(tier), BookFanout()]
+    return [Scalar(), RangeShift(tier), SheetEdit(tier), SheetMove(tier), BookFanout(), FromOtherSheet()]
 
 OPTIONS = {'want_smir': True}
